@@ -49,8 +49,19 @@ type Converter struct {
 	Methods  []*Method
 	// structOnly is the last setting seen that needs output:format struct.
 	structOnly string
+	// pendingExtend are the extend functions that are not looked up yet.
+	pendingExtend []pendingExtend
 
 	Location string
+}
+
+type pendingExtend struct {
+	name string
+	opts *method.ParseOpts
+
+	raw    RawLines
+	source string
+	value  string
 }
 
 func (c *Converter) typeForMethod() types.Type {
@@ -114,6 +125,10 @@ func parseConverter(ctx *context, rawConverter *RawConverter, global RawLines) (
 
 	resolveOutputPackage(ctx, c)
 
+	if err := resolveExtend(ctx, c); err != nil {
+		return nil, err
+	}
+
 	err = parseMethods(ctx, rawConverter, c)
 	return c, err
 }
@@ -170,11 +185,29 @@ func initConverter(loader *pkgload.PackageLoader, rawConverter *RawConverter) (*
 
 func parseConverterLines(ctx *context, c *Converter, source string, raw RawLines) error {
 	for _, value := range raw.Lines {
+		before := len(c.pendingExtend)
 		if err := parseConverterLine(ctx, c, value); err != nil {
 			return formatLineError(raw, source, value, err)
 		}
+		for i := before; i < len(c.pendingExtend); i++ {
+			c.pendingExtend[i].raw, c.pendingExtend[i].source, c.pendingExtend[i].value = raw, source, value
+		}
 	}
 
+	return nil
+}
+
+// resolveExtend looks up the extend functions once the output package is known.
+func resolveExtend(ctx *context, c *Converter) error {
+	for _, pending := range c.pendingExtend {
+		pending.opts.OutputPackagePath = c.OutputPackagePath
+		defs, err := ctx.Loader.GetMatching(c.Package, pending.name, pending.opts)
+		if err != nil {
+			return formatLineError(pending.raw, pending.source, pending.value, err)
+		}
+		c.Extend = append(c.Extend, defs...)
+	}
+	c.pendingExtend = nil
 	return nil
 }
 
@@ -197,7 +230,7 @@ func parseConverterLine(ctx *context, c *Converter, value string) (err error) {
 	case configOutputFile:
 		c.OutputFile, err = parse.File(ctx.WorkDir, rest)
 	case "output:format":
-		if len(c.Extend) != 0 {
+		if len(c.Extend) != 0 || len(c.pendingExtend) != 0 {
 			return fmt.Errorf("Cannot change output:format after extend functions have been added.\nMove the extend below the output:format setting.")
 		}
 
@@ -244,20 +277,19 @@ func parseConverterLine(ctx *context, c *Converter, value string) (err error) {
 		pattern, err = parseIDPattern(c.Package, rest)
 		c.Enum.Excludes = append(c.Enum.Excludes, pattern)
 	case configExtend:
+		// The functions are looked up after all lines are read: whether a
+		// function is accessible depends on the output package, which may be
+		// set by a later line or inferred from the location of the output file.
 		for _, name := range strings.Fields(rest) {
-			opts := &method.ParseOpts{
-				ErrorPrefix:       "error parsing type",
-				OutputPackagePath: c.OutputPackagePath,
-				Converter:         c.typeForMethod(),
-				Params:            method.ParamsRequired,
-				ContextMatch:      c.ArgContextRegex,
-			}
-			var defs []*method.Definition
-			defs, err = ctx.Loader.GetMatching(c.Package, name, opts)
-			if err != nil {
-				break
-			}
-			c.Extend = append(c.Extend, defs...)
+			c.pendingExtend = append(c.pendingExtend, pendingExtend{
+				name: name,
+				opts: &method.ParseOpts{
+					ErrorPrefix:  "error parsing type",
+					Converter:    c.typeForMethod(),
+					Params:       method.ParamsRequired,
+					ContextMatch: c.ArgContextRegex,
+				},
+			})
 		}
 	default:
 		_, err = parseCommon(&c.Common, cmd, rest)
